@@ -86,7 +86,7 @@ func HarnessDrainQuiescent() {
 			vAssume(arrival == 0)
 		}
 		plan := &vProxyPlan{}
-		planKind := vChoose("plan"+vItoa(c), 4)
+		planKind := vChoose("plan"+vItoa(c), vParam("plans", 4))
 		if fp := vParam("racer_plan", -1); fp >= 0 {
 			vAssume(planKind == fp)
 		}
@@ -101,6 +101,9 @@ func HarnessDrainQuiescent() {
 		case 3:
 			plan.hijackLate = true
 			plan.service = vDur("upgrade_after" + vItoa(c))
+		case 4: // an upgraded connection that its peer closes after a while (the session ends by itself)
+			plan.hijack, plan.hijackEnds = true, true
+			plan.service = vDur("session_time" + vItoa(c))
 		}
 		plan.cookie = rolloutScenario
 		vProxyPlans[c] = plan
